@@ -9,19 +9,20 @@ Definition str : Region := string_region (owned nat).
 Definition wf_any (v : list nat) : Prop := True.
 #[export] Instance str_spec : RSpec str := @string_spec (owned nat) wf_any _.
 #[export] Instance str_ok : RegionOK str := @string_ok (owned nat) wf_any _ _.
+#[export] Instance str_pair : PairIdx str := @Build_PairIdx str (fun i : nat * nat => i) (fun i : nat * nat => i).
 #[export] Instance str_dense : Dense str.
 Proof.
-  refine (@Build_Dense str _ (fun i => i) (fun i => i) (@length nat) _ _ _ _ _ _); cbn; auto.
+  refine (@Build_Dense str _ _ (@length nat) _ _ _ _ _ _); cbn; auto.
   - intros s t ->. reflexivity.
   - intros s v s' i _ Hp. inversion Hp; subst. rewrite app_length. reflexivity.
 Defined.
 #[export] Instance str_merge_fresh : MergeFresh str.
 Proof. intros l _. reflexivity. Qed.
 
-Definition cell (chk : bool) : Region := collapse (consec str (vec_ic nat) chk) bytes_eqb.
+Definition cell (chk : bool) : Region := collapse (consec str (vec_ic nat 8%N) chk) bytes_eqb.
 #[export] Instance cell_ok chk : RegionOK (cell chk) :=
-  collapse_ok (R := consec str (vec_ic nat) chk) bytes_eqb bytes_eqb_sound.
-Definition table (chk : bool) : Region := columns (cell chk) (vec_ic nat) chk.
+  collapse_ok (R := consec str (vec_ic nat 8%N) chk) bytes_eqb bytes_eqb_sound.
+Definition table (chk : bool) : Region := columns (cell chk) (vec_ic nat 8%N) chk.
 
 Definition C01_C02_table chk := @reachable_ok (table chk) _ _.
 Definition C08_table chk := @clear_fresh (table chk) _ _.
